@@ -1,9 +1,13 @@
 #!/bin/bash
-# tools/seed_sweep.sh [lanes] : run tools/seedtest.py over every seeded change, in parallel lanes that never share a property
-# (a lane = its own scratch worktree and build cache).  Logs to /root/seedsweep_<lane>.log.
+# tools/seed_sweep.sh [lanes] [ref-file] : run tools/seedtest.py over every seeded change, in parallel lanes that never share a
+# property (a lane = its own scratch worktree and build cache).  With a ref-file, seeds whose detection.json is newer than
+# that file are skipped (to resume an interrupted sweep).  Logs to /root/seedsweep_<lane>.log.
 cd "$(dirname "$0")/.."
 L=${1:-3}
+REF=${2:-}
 for k in $(seq 0 $((L-1))); do
-  ( for d in seeded/*/; do s=$(basename $d); p=${s%%-*}; n=$((10#${p#C})); if [ $((n % L)) -eq $k ]; then SEED_WT=/tmp/vf_seedrepo_$k python3 tools/seedtest.py $s 2>&1 | head -3; fi; done > /root/seedsweep_$k.log 2>&1 ) &
+  ( for d in seeded/*/; do s=$(basename $d); p=${s%%-*}; n=$((10#${p#C})); if [ $((n % L)) -eq $k ]; then
+      if [ -n "$REF" ] && [ -f "$d/detection.json" ] && [ "$d/detection.json" -nt "$REF" ]; then continue; fi
+      SEED_WT=/tmp/vf_seedrepo_$k python3 tools/seedtest.py $s 2>&1 | head -3; fi; done >> /root/seedsweep_$k.log 2>&1 ) &
 done
 wait
